@@ -1261,6 +1261,58 @@ run_case(long idx, const casecfg *cc)
 	vf_nng_init(4, 2, 2);
 }
 
+// ------------------------------------------------------------ staged case
+// One interleaving that random jitter reaches only rarely, staged with a
+// targeted delay: a receive (old request) reaches its timeout, the expire
+// thread has picked it up but not yet called the protocol's cancel function
+// when the application sends a new request on the same context (no pipe, so
+// that send pends).  The late cancellation belongs to the old receive; the new
+// send was cancelled by nobody and must not complete with NNG_ECANCELED.
+static void
+staged_late_timeout(long idx)
+{
+	nng_socket s;
+	nng_ctx    c;
+	nng_aio   *s1, *r1, *s2;
+	nng_msg   *m;
+	vf_case_begin(idx, "staged: receive timeout delivered late (delay at aio-expire-before-cancel), newer send pending on the same context");
+	vf_watchdog(60);
+	if (nng_req0_open(&s) != 0 || nng_ctx_open(&c, s) != 0) vf_harness_fail("req open");
+	if (nng_aio_alloc(&s1, NULL, NULL) != 0 || nng_aio_alloc(&r1, NULL, NULL) != 0 || nng_aio_alloc(&s2, NULL, NULL) != 0) vf_harness_fail("aio alloc");
+	vf_pt_target(NNI_VP_AIO_EXPIRE_BEFORE_CANCEL, 1000, 100000, 100000);
+	if (nng_msg_alloc(&m, 8) != 0) vf_harness_fail("msg alloc");
+	nng_aio_set_msg(s1, m);
+	nng_aio_set_timeout(s1, LONG_MS);
+	nng_ctx_send(c, s1); // pends: there is no pipe
+	nng_aio_set_timeout(r1, 10);
+	nng_ctx_recv(c, r1); // expires after 10 ms; its cancellation is held up for 100 ms
+	vf_msleep(50);
+	if (nng_msg_alloc(&m, 8) != 0) vf_harness_fail("msg alloc");
+	nng_aio_set_msg(s2, m);
+	nng_aio_set_timeout(s2, LONG_MS);
+	nng_ctx_send(c, s2); // the new request: cancels the old send and receive
+	nng_aio_wait(r1);
+	nng_aio_wait(s1);
+	vf_msleep(250);
+	if (!nng_aio_busy(s2) && nng_aio_result(s2) == NNG_ECANCELED) {
+		vf_violation("C04/disturbed/send-failed/ECANCELED", "staged: the timeout of an earlier receive (already finished with %s) cancelled the context's NEW pending send, which completed with NNG_ECANCELED although nobody cancelled it", nng_strerror(nng_aio_result(r1)));
+	}
+	vf_pt_off();
+	nng_aio_cancel(s2);
+	nng_aio_wait(s2);
+	if ((m = nng_aio_get_msg(s1)) != NULL) nng_msg_free(m);
+	if ((m = nng_aio_get_msg(s2)) != NULL) nng_msg_free(m);
+	if ((m = nng_aio_get_msg(r1)) != NULL) nng_msg_free(m);
+	nng_aio_free(s1);
+	nng_aio_free(s2);
+	nng_aio_free(r1);
+	nng_ctx_close(c);
+	nng_socket_close(s);
+	vf_stat("staged_cases", 1);
+	vf_nng_fini("C04");
+	vf_nng_init(4, 2, 2);
+}
+
 int
 main(int argc, char **argv)
 {
@@ -1298,6 +1350,8 @@ main(int argc, char **argv)
 		c.jit_us = (int) vf_range(&r, 20, 300);
 		run_case(idx, &c);
 	}
+	// (one worker is enough: the staged case is deterministic)
+	if (vf_shard == 0 && vf_want_case(vf_cases)) staged_late_timeout(vf_cases);
 	vf_nng_fini("C04");
 	return vf_finish();
 }
